@@ -19,6 +19,9 @@ def run(chk, replay=None):
     # bodies on the model (outcome independent of the cuts, and the grammar's), model bound to the real decoder
     from checks import recv_model
     recv_model.model_check(chk, "C02")
+    # ... and HTTPRequestParser.received itself (spec/ParserOps.tla): head buffering, limits, hand-over to the receivers
+    from checks import parser_model
+    parser_model.model_check(chk, "C02")
     rng = random.Random(chk.seed)
     corpus = framing_gen.corpus(False, rng)
     sent = framing_gen.sentences() + framing_gen.framing_variants()
@@ -45,6 +48,9 @@ def run(chk, replay=None):
         if blen > 0:
             for d in (-1, 0, 1):
                 items.append((n + "@maxb%+d" % d, m, {"maxh": 262144, "maxb": max(blen + d, 1)}, "single", chk.seed + len(items)))
+    # a chunked body that is malformed and also reaches the body limit (known finding K-C02-400-or-413)
+    bad = framing_gen.msg(method=b"POST", headers=[framing_gen.HOST, (b"Transfer-Encoding", b"chunked")], raw_body=b"g\r\nabc\r\n0\r\n\r\n")
+    items.append(("chunk-bad-and-over-limit@maxb=8", bad + follow, {"maxh": 262144, "maxb": 8}, "single", chk.seed + len(items)))
     traces, meta, rej = fc.execute(chk, "C02", fc.C02 + fc.C01, items)
     for t in traces:
         chk.count(1, ("s", t["id"]) if len(meta[str(t["id"])]["stream"]) > 30 else None)
